@@ -51,13 +51,18 @@ Complete(f) ==
     /\ \A i \in 1..Full : f.chunks[i].k = i /\ f.chunks[i].d = f.chunks[1].d
                           /\ f.chunks[i].leak = f.chunks[1].leak
 
-DirAt(h, t) == LET idx == {i \in 1..Len(h) : h[i].t <= t}
-                   m == CHOOSE i \in idx : \A j \in idx : j <= i
-               IN h[m].d
-
+\* hist[i] is in force from hist[i].t until hist[i+1].t (closed interval: a value replaced within
+\* the same tick still "was" the directory at that tick)
 \* "reflects the directory as it was at most `life` ago" for a request served between start and now
 ReflectsRecent(h, d, start, now, life) ==
-    \E t \in (IF start - life < 0 THEN 0 ELSE start - life)..now : DirAt(h, t) = d
+    \E i \in 1..Len(h) : /\ h[i].d = d /\ h[i].t <= now
+                          /\ (i = Len(h) \/ h[i + 1].t >= start - life)
+
+\* history entries that no request starting from `now` on can still refer to are forgotten
+Prune(h, now, life) ==
+    LET keep == {i \in 1..Len(h) : i = Len(h) \/ h[i + 1].t >= now - life}
+        lo == CHOOSE i \in keep : \A j \in keep : i <= j
+    IN SubSeq(h, lo, Len(h))
 
 WriteAt(chunks, pos, c) ==
     IF pos <= Len(chunks) THEN [chunks EXCEPT ![pos] = c]
@@ -79,9 +84,7 @@ Init ==
 
 (* ---- environment ---- *)
 SetDir(d2) == /\ dir' = d2
-              /\ hist' = IF hist[Len(hist)].t = clock
-                         THEN [hist EXCEPT ![Len(hist)] = [t |-> clock, d |-> d2]]
-                         ELSE Append(hist, [t |-> clock, d |-> d2])
+              /\ hist' = Append(hist, [t |-> clock, d |-> d2])
               /\ UNCHANGED <<clock, T, file, pc, mem, req, started, out, wpos>>
 
 Create(n)   == dir[n] = "absent" /\ SetDir([dir EXCEPT ![n] = "v1"])
@@ -91,7 +94,10 @@ Rename(n,m) == n # m /\ dir[n] # "absent" /\ dir[m] = "absent"
 EditMeta(n) == dir[n] # "absent" /\ SetDir([dir EXCEPT ![n] = IF dir[n] = "v1" THEN "v2" ELSE "v1"])
 
 Tick(d) == /\ clock' = clock + d
-           /\ UNCHANGED <<dir, hist, T, file, pc, mem, req, started, out, wpos>>
+           /\ LET busy == {started[w] : w \in {x \in Workers : pc[x] # "idle"}}
+                  lo == CHOOSE m \in busy \cup {clock + d} : \A k \in busy \cup {clock + d} : m <= k
+              IN hist' = Prune(hist, lo, T)
+           /\ UNCHANGED <<dir, T, file, pc, mem, req, started, out, wpos>>
 
 \* crash of a writer / full disk / manual damage: the file keeps only its first n chunks
 Cut(n) == /\ file.exists /\ n < Len(file.chunks)
